@@ -245,6 +245,27 @@ static int oracle_graph(int, char**) {
 					apply_op(nif.hdr, nif.blocks, op, true);
 					out << " | " << dump_graph(nif.hdr, nif.blocks);
 				}
+				// NiGeometry caches a raw pointer to its data block; header-level deletions / replacements do not maintain
+				// it (that dangling cache is C11's recorded finding, not this property's subject): a caller editing through
+				// the header re-links the shapes, and so does the harness before the model is saved
+				for (uint32_t i = 0; i < nif.hdr.GetNumBlocks(); ++i)
+					if (auto shape = nif.hdr.GetBlock<NiShape>(i))
+						if (shape->DataRef()) {
+							auto data = nif.hdr.GetBlock<NiGeometryData>(shape->DataRef());
+							// SetGeomData ignores a null pointer: a cache whose block is gone is cleared member by member
+							if (auto a = dynamic_cast<NiTriShape*>(shape))
+								a->shapeData = nullptr;
+							if (auto a = dynamic_cast<NiTriStrips*>(shape))
+								a->stripsData = nullptr;
+							if (auto a = dynamic_cast<NiLines*>(shape))
+								a->linesData = nullptr;
+							if (auto a = dynamic_cast<NiScreenElements*>(shape))
+								a->elemData = nullptr;
+							if (auto a = dynamic_cast<BSLODTriShape*>(shape))
+								a->shapeData = nullptr;
+							if (data)
+								shape->SetGeomData(data);
+						}
 				// save without sorting/pruning, reload, dump again (identities are positional now)
 				std::stringstream ss;
 				NifSaveOptions so;
